@@ -750,7 +750,11 @@ static Outcome evaluate(std::vector<CompDef> const &C, CaseId const &id, Prepare
     out.fd_coords++;
     if (r.sing || std::fabs(r.d1 - r.d2) > SING_REL * scale + SING_ABS) { out.fd_singular++; continue; }
     out.fd_checked++;
-    double tol = TOL_REL * scale + TOL_ABS + 0.05 * std::fabs(r.d1 - r.d2);
+    // The extrapolated value r = d2 + (d2 - d1)/3 is exact to O(h^4) for a smooth energy.  Energies that are only once
+    // differentiable (ABMD at its running reference, walls at the wall, restraint on a clamped variable) make the central
+    // difference converge at O(h) when the kink lies inside the stencil; the true derivative is then d2 - (d1 - d2), which is
+    // 2/3 |d1 - d2| away from r.  Allowing |d1 - d2| covers both regimes; for smooth cases it is ~1e-6 of the scale.
+    double tol = TOL_REL * scale + TOL_ABS + 1.0 * std::fabs(r.d1 - r.d2);
     if (std::fabs(r.f) > tol || std::fabs(r.r) > tol) out.nonzero++;
     double dev;
     std::string kind;
